@@ -7,17 +7,28 @@ from vlib import common as C
 
 ID = 'C11'
 READY = True
-LEVEL_TEXT = ('Partial (full for the algorithm in exact arithmetic, under two stated hypotheses on the un-modelled matrix functions). '
-              'Coq theorems over R about the kernels re-translated from the source on every run, for the single- and the three-branch model: '
-              'the reported dissipated energy equals G|dev E_trial|^2 (dt/tau)/(1+dt/tau)^2 and is non-negative for tau, dt > 0, G >= 0 and EVERY '
-              'log_sqrt_symm; the state increment is trace-free, so det Fv_new = det Fv_old for every expm with det(expm A) = exp(tr A); the energy '
-              'equals W_eq + sum_i G_i |dev E_trial,i|^2/(1+dt/tau_i) for every state, which gives the explicit bounds |W - W_inst| <= c dt/tau and '
+LEVEL_TEXT = ('Partial (full for the algorithm in exact arithmetic; since round 3 the two former hypotheses on the matrix functions are THEOREMS for the '
+              'spectral functions V diag(f(lam)) V^T that TensorMath.symmetric_matrix_function builds, under the contract of the eigen-solver at the '
+              'matrices it is called on). Coq theorems over R about the kernels re-translated from the source on every run, for the single- and the '
+              'three-branch model: the reported dissipated energy equals G|dev E_trial|^2 (dt/tau)/(1+dt/tau)^2 and is non-negative for tau, dt > 0, '
+              'G >= 0 and EVERY log_sqrt_symm; the state increment is trace-free, so det Fv_new = det Fv_old -- for every expm with '
+              'det(expm A) = exp(tr A), and now also with NO hypothesis on the exponential: det(exp_spec A) = exp(tr A) is proved from the solver '
+              'contract V^T V = V V^T = I, V diag(lam) V^T = A (C11_spectral_exponential_det, C11_isochoric_spectral*); the energy equals '
+              'W_eq + sum_i G_i |dev E_trial,i|^2/(1+dt/tau_i) for every state, which gives the explicit bounds |W - W_inst| <= c dt/tau and '
               '|W - W_eq| <= c tau/dt and the two limits (epsilon statements); at held deformation every further step multiplies the stored '
-              'non-equilibrium energy of a branch by 1/(1+dt/tau)^2 in (0,1), so it is non-increasing along any sequence of positive steps -- '
-              'under the coaxial update identity Etrial(state_new) = Etrial(state) - delta_Ev, exact for the true matrix log/exp. '
-              'NOT proved: accuracy of TensorMath.log_sqrt_symm (approximate spectral routine) and of jax.scipy.linalg.expm; the two '
-              'hypotheses are checked numerically on the implementation for every explored history. Binary64 behaviour is covered only by the '
-              'correspondence and by evaluating the conclusions on the real models over dt/tau in [1e-6, 1e6].')
+              'non-equilibrium energy of a branch by 1/(1+dt/tau)^2 in (0,1), so along ANY sequence of positive steps it is non-increasing, for the '
+              'single branch, for every branch of the three-branch model and for their sum, which is exactly energy - dissipation - equilibrium '
+              'energy (C11_relaxation_monotone*, C11_reported_energy*).  The coaxial update identity these relaxation theorems rest on, '
+              'Etrial(state_new) = Etrial(state) - delta_Ev, is proved (C11_coaxial_update*) for the spectral log_sqrt_symm / exponential from: F and Fv '
+              'invertible and the solver contract at Ce = Fe^T Fe, at the increment and at Ce after the update; the proof shows that a spectral matrix '
+              'function does not depend on which orthogonal decomposition the solver returns (C11_spectral_function_unique) and that the eigenvalues '
+              'of Fe^T Fe are positive; C11_relaxation_monotone_spectral* then hold with no hypothesis on the matrix functions beyond the solver contract '
+              'along the sequence. '
+              'NOT proved: that TensorMath.eigen_sym33_unit meets the contract (existence = the spectral theorem; accuracy of the routine is C12) and that '
+              'jax.scipy.linalg.expm (Pade, scaling and squaring) equals the spectral exponential: both are evaluated numerically on every run (stream '
+              '`spectral`: contract gap of the oracles, model vs implementation), and their consequences Hexp / Hcoax on every explored history. '
+              'Binary64 behaviour is covered only by the correspondence and by evaluating the conclusions on the real models (public interface only) over '
+              'dt/tau in [1e-6, 1e6], including large-rotation load steps followed by holds.')
 TECHNIQUE = 'Coq proof (Reals) over kernels regenerated from the Python AST, opaque spectral functions as parameters; vm_compute/PrimFloat correspondence'
 GEN = ['TensorMath', 'HyperViscoelastic', 'MultiBranchHyperViscoelastic', 'ViscoState']
 TARGETS = ['model/M_C11.vo', 'model/M_C11s.vo', 'proofs/L_C11a.vo', 'proofs/L_C11.vo', 'proofs/L_C11s.vo', 'proofs/L_C11t.vo']
@@ -25,16 +36,23 @@ COQ_FILES = ['base/Num.v', 'model/M_C08.v', 'model/M_C11.v', 'model/M_C11s.v', '
 TRUSTED = ['Coq 8.16.1 kernel + vm_compute (no native_compute)',
            'tools/vlib/py2coq.py translator (Python ast -> Gallina over Num T), cross-checked by running the generated kernels at binary64 against the implementation',
            'hand composition of the generated per-branch kernels for the three-branch loops (model/M_C11.v, model/M_C08.v), tied by the same comparison',
+           'hand model of TensorMath.symmetric_matrix_function / log_sqrt_symm and of the exponential of a symmetric matrix (model/M_C11s.v: V diag(f(lam)) V^T, '
+           'inverse = adjugate/determinant as the translator expands np.linalg.inv), tied by stream `spectral`: log_sqrt_symm with the eigen-pairs of '
+           'eigen_sym33_unit as oracle (rounding only), jax.scipy.linalg.expm with numpy eigh as oracle (<= 1e-11 relative)',
            'correspondence harness: exact float exchange; log_sqrt_symm / expm values of the implementation are fed to the generated kernels as constant oracles',
            'theorems are over exact reals; binary64 rounding is covered only by the correspondence and the evaluated conclusions']
 ASSUMPTIONS = ['exact real arithmetic in theorems',
-               'Hexp: det(expm A) = exp(tr A) for jax.scipy.linalg.expm (checked numerically on every explored increment)',
-               'Hcoax: Etrial(H, expm(delta_Ev) Fv) = Etrial(H, Fv) - delta_Ev at held deformation, exact for the true matrix logarithm/exponential '
-               '(checked numerically on every explored held step); TensorMath.log_sqrt_symm itself is not verified',
+               'general theorems (C11_isochoric, C11_relaxation_*): Hexp: det(expm A) = exp(tr A); Hcoax: Etrial(H, expm(delta_Ev) Fv) = Etrial(H, Fv) - delta_Ev '
+               'at held deformation -- both PROVED for the spectral functions (C11_spectral_exponential_det, C11_coaxial_update*) and still checked '
+               'numerically on every explored increment / held step',
+               'spectral theorems: the eigen-solver returns V, lam with V^T V = V V^T = I and V diag(lam) V^T = A at the matrices it is called on '
+               '(eigh_ok; evaluated on the oracles of stream `spectral`); jax.scipy.linalg.expm equals the spectral exponential up to rounding (same stream); '
+               'det F != 0, det Fv != 0 (det Fv is preserved by the update: C11_isochoric_spectral)',
                'moduli >= 0, relaxation times > 0, time steps > 0']
 RULE = ('cases: random positive moduli and relaxation times over four decades, deformations F = R U with stretches in [0.6, 1.7], dt/tau from 1e-6 to 1e6; '
-        'L1: random (H, Fv, dt) with non-virgin states; L2: multi-step random deformation histories followed by held segments, and step-size sweeps on a '
-        'virgin material.  Non-trivial = deformation with a deviatoric logarithmic strain above 1e-3; distinct = distinct (model, properties, history) tuples')
+        'L1: random (H, Fv, dt) with non-virgin states; spectral: random elastic trial deformations F Fv^-1 and viscous increments; '
+        'L2 (public interface of the models only): large-rotation load paths (rigid rotation 50..180 degrees on a stretch, or simple shear gamma in (2, 4]) '
+        'followed by 3..8 holds, multi-step random deformation histories followed by held segments, and step-size sweeps on a virgin material.  Non-trivial = deformation with a deviatoric logarithmic strain above 1e-3; distinct = distinct (model, properties, history) tuples')
 IMPORTS = ['From OV.gen Require Import Gen_TensorMath Gen_HyperViscoelastic Gen_MultiBranchHyperViscoelastic Gen_ViscoState.',
            'From OV.model Require Import M_C08 M_C11 M_C11s.']
 
